@@ -344,7 +344,7 @@ func runC18(c *core.Ctx) {
 				"hashing context uses pwr.BlockSize", "hashing context is created with a block size other than pwr.BlockSize")
 		}
 	}
-	c.Floor("R18.4", "block-size sites", n, 4)
+	c.Floor("R18.4", "block-size sites", n, 2)
 }
 
 func callLikeInvoke(method string) ipred {
